@@ -285,3 +285,21 @@ func isRecordHdrVar(v ssa.Value) bool {
 	a, ok := v.(*ssa.Alloc)
 	return ok && typeNameOf(a.Type()) == "RecordHdr"
 }
+
+// strictOrder reads v as a strict order test between two timestamps: a.After(b) and
+// b.Before(a) both say that b is earlier than a (ntp.Time64 and time.Time; the two
+// methods are mirror images of each other).
+func strictOrder(v ssa.Value) (earlier, later ssa.Value, call *ssa.Call, ok bool) {
+	c, _ := ana.CallOf(v)
+	if c == nil || len(c.Common().Args) != 2 {
+		return nil, nil, nil, false
+	}
+	a, b := c.Common().Args[0], c.Common().Args[1]
+	switch ana.CalleeName(c.Common()) {
+	case ana.Q("(net/ntp.Time64).After"), "(time.Time).After":
+		return b, a, c, true
+	case ana.Q("(net/ntp.Time64).Before"), "(time.Time).Before":
+		return a, b, c, true
+	}
+	return nil, nil, nil, false
+}
